@@ -530,15 +530,35 @@ static void obj_drop(void *a)
 
 #define ACTIVE (g_enabled && self_id >= 0)
 
+/* fault injector / resource ledger (wrap_alloc.c): kinds as in wrap_alloc.h */
+int fi_hook(int kind, void *obj, int phase) __attribute__((weak));
+#define FI_PRE(kind, obj, err)                                                 \
+    do {                                                                       \
+        if (fi_hook && fi_hook((kind), (obj), 1))                              \
+            return (err);                                                      \
+    } while (0)
+#define FI_POST(kind, obj, phase)                                              \
+    do {                                                                       \
+        if (fi_hook)                                                           \
+            fi_hook((kind), (obj), (phase));                                   \
+    } while (0)
 int __wrap_pthread_mutex_init(pthread_mutex_t *m, const pthread_mutexattr_t *a)
 {
+    FI_PRE(6, m, ENOMEM);
     obj_drop(m);
-    return __real_pthread_mutex_init(m, a);
+    int r = __real_pthread_mutex_init(m, a);
+    if (r == 0)
+        FI_POST(6, m, 0);
+    return r;
 }
 int __wrap_pthread_cond_init(pthread_cond_t *c, const pthread_condattr_t *a)
 {
+    FI_PRE(7, c, ENOMEM);
     obj_drop(c);
-    return __real_pthread_cond_init(c, a);
+    int r = __real_pthread_cond_init(c, a);
+    if (r == 0)
+        FI_POST(7, c, 0);
+    return r;
 }
 int __wrap_pthread_mutex_lock(pthread_mutex_t *m)
 {
@@ -578,11 +598,13 @@ int __wrap_pthread_mutex_unlock(pthread_mutex_t *m)
 }
 int __wrap_pthread_mutex_destroy(pthread_mutex_t *m)
 {
+    FI_POST(6, m, -1);
     obj_drop(m);
     return __real_pthread_mutex_destroy(m);
 }
 int __wrap_pthread_cond_destroy(pthread_cond_t *c)
 {
+    FI_POST(7, c, -1);
     obj_drop(c);
     return __real_pthread_cond_destroy(c);
 }
@@ -642,6 +664,8 @@ int __wrap_pthread_cond_broadcast(pthread_cond_t *c)
 int __wrap_pthread_barrier_init(pthread_barrier_t *b,
                                 const pthread_barrierattr_t *a, unsigned n)
 {
+    FI_PRE(8, b, ENOMEM);
+    FI_POST(8, b, 0);
     obj_drop(b);
     vobj *o = obj_find(b, 1);
     o->count = n;
@@ -650,6 +674,7 @@ int __wrap_pthread_barrier_init(pthread_barrier_t *b,
 }
 int __wrap_pthread_barrier_destroy(pthread_barrier_t *b)
 {
+    FI_POST(8, b, -1);
     obj_drop(b);
     return __real_pthread_barrier_destroy(b);
 }
@@ -699,8 +724,13 @@ static void *tramp(void *p)
 int __wrap_pthread_create(pthread_t *t, const pthread_attr_t *a,
                           void *(*fn)(void *), void *arg)
 {
-    if (!ACTIVE)
-        return __real_pthread_create(t, a, fn, arg);
+    FI_PRE(5, NULL, EAGAIN);
+    if (!ACTIVE) {
+        int r = __real_pthread_create(t, a, fn, arg);
+        if (r == 0)
+            FI_POST(5, (void *)*t, 0);
+        return r;
+    }
     int id = -1;
     for (int i = 1; i < MAXT; i++)
         if (T[i].state == ST_FREE) {
@@ -721,11 +751,13 @@ int __wrap_pthread_create(pthread_t *t, const pthread_attr_t *a,
         return r;
     T[id].state = ST_RUN;
     *t = T[id].native;
+    FI_POST(5, (void *)*t, 0);
     vsp(t, VK_POST);
     return 0;
 }
 int __wrap_pthread_join(pthread_t t, void **ret)
 {
+    FI_POST(5, (void *)t, -1);
     if (!ACTIVE)
         return __real_pthread_join(t, ret);
     int id = -1;
